@@ -12,9 +12,14 @@ use crate::util::*;
 use serde_json::{json, Value};
 
 pub fn judge_one(ctx: &mut Ctx, rd: &Rendered, sp: &Sp, cfg: &Cfg, step: u8, gen_name: &str) {
+    // the same configuration step read off different clocks (fractional seconds, other zone)
+    let cfg = &if gen_name == "replay" { cfg.clone() } else { vary_cfg(cfg, step, hash64(&[rd.text.as_bytes()])) };
     if judge::recognition_in_dispute(&rd.text, sp) {
         ctx.skip("tag recognition in dispute on this rendering (KF-C08)");
         return;
+    }
+    if ctx.prop == "C12" && rd.text.contains('\r') {
+        return judge_cr(ctx, rd, sp, cfg, step, gen_name);
     }
     if (gen_name == "replay" && !judge::spans_subset(rd, sp)) || (gen_name != "replay" && !judge::spans_consistent(rd, sp)) {
         ctx.skip("delimiter characters occur outside tags under this spelling (generator self-check)");
@@ -36,9 +41,10 @@ pub fn judge_one(ctx: &mut Ctx, rd: &Rendered, sp: &Sp, cfg: &Cfg, step: u8, gen
             let w1 = u.open_line + 1;
             let w2 = u.close_line - 1;
             if rd.elems.iter().any(|e| {
-                let ol = line_of(&ls, e.open.0);
-                let cl = line_of(&ls, e.close.0);
-                ol == w1 || ol == w2 || cl == w1 || cl == w2
+                // (tags may span several lines)
+                let o = line_of(&ls, e.open.0)..=line_of(&ls, e.open.1.saturating_sub(1));
+                let c = line_of(&ls, e.close.0)..=line_of(&ls, e.close.1.saturating_sub(1));
+                [w1, w2].iter().any(|w| o.contains(w) || c.contains(w))
             }) {
                 ctx.skip("a tag sits on a wrapper line (outside the C11/C12 space)");
                 return;
@@ -115,6 +121,88 @@ pub fn judge_one(ctx: &mut Ctx, rd: &Rendered, sp: &Sp, cfg: &Cfg, step: u8, gen
     if ctx.sample_due() {
         ctx.sample(|| json!({"generator": gen_name, "input": trunc(&rd.text, 500), "output": trunc(&out, 500), "ready_extents": ext}));
     }
+}
+
+/// C12 on documents with carriage returns (CRLF / mixed line ends): "only spaces and tabs are ever
+/// consumed" from the inner lines of an unwrapped block. The line-by-line dedent oracle does not
+/// apply (a '\r' makes tag lines non-blank), so the verdict is the byte alignment of the output
+/// with the input minus the ready extents: the first byte that disappeared and is not a space,
+/// tab or line break is attributed to C12 iff it lies in the body of an unwrapped block.
+fn judge_cr(ctx: &mut Ctx, rd: &Rendered, sp: &Sp, cfg: &Cfg, step: u8, gen_name: &str) {
+    if (gen_name == "replay" && !judge::spans_subset(rd, sp)) || (gen_name != "replay" && !judge::spans_consistent(rd, sp)) {
+        ctx.skip("delimiter characters occur outside tags under this spelling (generator self-check)");
+        return;
+    }
+    let Some(ext) = extents(rd, step) else {
+        ctx.skip("ready unwrap element in non-canonical geometry");
+        return;
+    };
+    let bodies = unwrapped_bodies(rd, step);
+    if bodies.is_empty() {
+        ctx.skip("no unwrapped block (CR document)");
+        return;
+    }
+    ctx.before_exec(|| doc_replay("line", rd, sp, cfg, step));
+    ctx.eval();
+    ctx.count(&format!("gen:{gen_name}"));
+    let rp = || doc_replay("line", rd, sp, cfg, step);
+    let out = match api::call_clean(&rd.text, sp, cfg) {
+        Ok((o, _)) => o,
+        Err(p) => {
+            ctx.panic_site(&p);
+            ctx.violation(gen_name, format!("clean panicked: {} @ {}", trunc(&p.msg, 80), api::short_loc(&p.loc)), rp());
+            return;
+        }
+    };
+    let tb = rd.text.as_bytes();
+    let ob = out.as_bytes();
+    let mut j = 0usize;
+    let mut cur = 0usize;
+    let mut verdict = V::Held;
+    let mut cr_on_inner = 0u64;
+    'outer: for (a, b) in ext.iter().cloned().chain(std::iter::once((tb.len(), tb.len()))) {
+        for pos in cur..a {
+            let c = tb[pos];
+            let in_body = bodies.iter().any(|(s, e)| *s <= pos && pos < *e);
+            if c == b'\r' && in_body {
+                cr_on_inner += 1;
+            }
+            if j < ob.len() && ob[j] == c {
+                j += 1;
+                continue;
+            }
+            if c == b' ' || c == b'\t' || c == b'\n' {
+                continue;
+            }
+            verdict = if in_body {
+                V::Violated(format!(
+                    "byte {:?} at offset {} on an inner line of an unwrapped block was consumed (only spaces and tabs may be): {:?} => {:?}",
+                    c as char,
+                    pos,
+                    trunc(&rd.text, 300),
+                    trunc(&out, 300)
+                ))
+            } else {
+                V::Skipped("non-blank byte lost outside the unwrapped bodies (C02 territory)")
+            };
+            break 'outer;
+        }
+        cur = b;
+    }
+    if matches!(verdict, V::Held) && j < ob.len() {
+        verdict = V::Skipped("output is not the input with byte ranges taken out (C02 territory)");
+    }
+    if matches!(verdict, V::Held) {
+        ctx.count_n("cr-bytes-on-inner-lines-preserved", cr_on_inner);
+        if cr_on_inner == 0 {
+            verdict = V::NA;
+        }
+    }
+    let h = hash64(&[rd.text.as_bytes(), sp.ds.as_bytes(), sp.de.as_bytes()]);
+    if matches!(verdict, V::Held) && ctx.sample_due() {
+        ctx.sample(|| json!({"generator": gen_name, "input": trunc(&rd.text, 500), "output": trunc(&out, 500), "ready_extents": ext}));
+    }
+    record(ctx, &verdict, gen_name, h, rp);
 }
 
 pub fn run(ctx: &mut Ctx) {
@@ -221,6 +309,23 @@ pub fn run(ctx: &mut Ctx) {
         judge_one(ctx, &rd, &sp, &cfg, STEP, "unwrap-layouts");
     }
     ctx.note("unwrap_layout_skeletons", json!(UnwrapParams::count()));
+    // ---- the same layouts with CRLF / mixed line ends (C12: nothing but spaces and tabs is consumed)
+    if ctx.prop == "C12" {
+        let total = UnwrapParams::count() * if quick { 4 } else { 60 };
+        for rank in (shard..total).step_by(n as usize) {
+            if ctx.past(0.66) {
+                break;
+            }
+            let p = UnwrapParams::from_rank(rank % UnwrapParams::count());
+            let mut r = Rng::for_case(seed, 77, rank);
+            let sp = if rank % 2 == 0 { default_sp() } else { short_sp() };
+            let depth = 1 + (rank / UnwrapParams::count()) as usize % 3;
+            let mut d = unwrap_doc(&p, &mut r, depth, true);
+            super::docs::crlf_pieces(&mut d, &mut r, (rank % 2) as usize);
+            let rd = render(&d, &sp);
+            judge_one(ctx, &rd, &sp, &cfg, STEP, "unwrap-layouts-crlf");
+        }
+    }
     // ---- big documents: wide indentation, long bodies, deep nesting
     let total = 50 * scale;
     for i in (shard..total).step_by(n as usize) {
